@@ -96,4 +96,259 @@ Section WithOracles.
           inversion E'; subst. apply authentic_b_iff in A'. congruence.
     - split; [intros _ pk Hpk; discriminate | reflexivity].
   Qed.
+
+  (* ---- the signature pass -------------------------------------------------- *)
+  Lemma sig_name_parts_spec n alg key :
+    sig_name_parts n = Some (alg, key) ->
+    n = sig_entry_name alg key /\ full_match signature_file_regex n = true.
+  Proof.
+    unfold sig_name_parts. destruct (full_match signature_file_regex n) eqn:F; [|discriminate].
+    destruct (strip_prefix sig_lit_prefix n) as [r|] eqn:S; [|discriminate].
+    intro C. apply strip_prefix_spec in S. apply cut_dot_spec in C. subst. split; reflexivity.
+  Qed.
+
+  (* the generated signature-type switch admits exactly the supported types *)
+  Lemma sig_kind_supported alg a : sig_kind_of alg = KAlg a -> supported alg = Some a.
+  Proof.
+    unfold sig_kind_of, sig_type_table. cbn [assoc_str].
+    repeat match goal with
+           | |- context [String.eqb alg ?s] =>
+               let E := fresh "E" in destruct (String.eqb alg s) eqn:E;
+               [apply String.eqb_eq in E; subst alg; vm_compute; intro H; inversion H; reflexivity|]
+           end.
+    vm_compute. intro H; inversion H.
+  Qed.
+
+  Definition sig_justified (keys : list string) (es : list entry) (s : sigrec) : Prop :=
+    exists e alg, In e es /\ e_name e = sig_entry_name alg (s_key s) /\
+      supported alg = Some (s_alg s) /\ In (s_key s) keys /\ s_sig s = e_body e.
+
+  Lemma sig_pass_sound keys : forall es sigs,
+    sig_pass keys es = Ok sigs -> forall s, In s sigs -> sig_justified keys es s.
+  Proof.
+    induction es as [|e es IH]; simpl; intros sigs H s Hs.
+    - inversion H; subst. destruct Hs.
+    - destruct (sig_name_parts (e_name e)) as [[alg key]|] eqn:P; [|discriminate].
+      assert (forall sg, sig_pass keys es = Ok sg -> In s sg -> sig_justified keys (e :: es) s) as Lift.
+      { intros sg Hsg Hin. destruct (IH sg Hsg s Hin) as (e' & alg' & A1 & A2).
+        exists e', alg'. split; [right; exact A1 | exact A2]. }
+      destruct (mem_str key keys) eqn:M; simpl in H.
+      + destruct (sig_kind_of alg) as [|a|] eqn:K.
+        * eapply Lift; eauto.
+        * destruct (sig_pass keys es) as [more| | |] eqn:R; simpl in H; try discriminate.
+          inversion H; subst. destruct Hs as [Hs|Hs].
+          -- subst s. simpl. apply sig_name_parts_spec in P. destruct P as [P _].
+             exists e, alg. simpl. split; [left; reflexivity|]. split; [exact P|].
+             split; [apply sig_kind_supported; exact K|]. split; [apply mem_str_In; exact M | reflexivity].
+          -- eapply Lift; eauto.
+        * discriminate.
+      + eapply Lift; eauto.
+  Qed.
+
+  (* ---- parseRepositoryIndex with checking on --------------------------------- *)
+  Lemma pri_checked_cases keys a :
+    pri true keys a = PErr \/
+    exists m1 rest sigs, a = m1 :: rest /\ keys <> [] /\ existsb contains_slash keys = false /\
+      sig_pass keys (m_entries m1) = Ok sigs /\
+      existsb (sig_verifies B D raw hash verify rest) sigs = true /\
+      pri true keys a = ifa rest.
+  Proof.
+    unfold parse_repository_index. destruct keys as [|k keys']; [left; reflexivity|].
+    destruct (existsb contains_slash (k :: keys')) eqn:Sl; [left; reflexivity|].
+    destruct a as [|m1 rest]; [left; reflexivity|].
+    destruct (sig_pass (k :: keys') (m_entries m1)) as [sigs| | |] eqn:SP; try (left; reflexivity).
+    destruct sigs as [|s0 sigs']; [left; reflexivity|].
+    destruct (existsb (sig_verifies B D raw hash verify rest) (s0 :: sigs')) eqn:V; [|left; reflexivity].
+    right. exists m1, rest, (s0 :: sigs'). repeat split; try assumption; discriminate.
+  Qed.
+
+  Lemma accepted_authentic keys m1 rest sigs :
+    sig_pass keys (m_entries m1) = Ok sigs ->
+    existsb (sig_verifies B D raw hash verify rest) sigs = true ->
+    Authentic keys m1 rest.
+  Proof.
+    intros SP V. apply existsb_exists in V. destruct V as (s & Hs & V).
+    destruct (sig_pass_sound keys _ _ SP s Hs) as (e & alg & He & Hn & Sup & Hk & Hb).
+    exists e, alg, (s_alg s), (s_key s). unfold sig_verifies in V. rewrite Hb in V. auto.
+  Qed.
+
+  Lemma accept_sound keys a idx :
+    pri true keys a = POk idx ->
+    exists m1 rest, a = m1 :: rest /\ Authentic keys m1 rest /\ ifa rest = POk idx.
+  Proof.
+    intro H. destruct (pri_checked_cases keys a) as [E|(m1 & rest & sigs & -> & _ & _ & SP & V & E)]; [congruence|].
+    exists m1, rest. split; [reflexivity|]. split; [eapply accepted_authentic; eauto | congruence].
+  Qed.
+
+  Lemma reject_not_authentic keys m1 rest :
+    ~ Authentic keys m1 rest -> pri true keys (m1 :: rest) = PErr.
+  Proof.
+    intro NA. destruct (pri_checked_cases keys (m1 :: rest)) as [E|(m1' & rest' & sigs & E0 & _ & _ & SP & V & _)]; [exact E|].
+    inversion E0; subst. exfalso. apply NA. eapply accepted_authentic; eauto.
+  Qed.
+
+  Lemma model_holds keys a idx :
+    pri true keys a = POk idx -> Holds B D raw hash verify parse_text keys a (Some (i_pkgs idx)).
+  Proof.
+    intros H pkgs E. inversion E; subst. destruct (accept_sound keys a idx H) as (m1 & rest & -> & A & I).
+    exists m1, rest. split; [reflexivity|]. split; [exact A|]. unfold signed_pkgs. rewrite I. reflexivity.
+  Qed.
+
+  Lemma reject_unsigned keys m1 rest :
+    (forall e alg key, In e (m_entries m1) -> e_name e <> sig_entry_name alg key) ->
+    pri true keys (m1 :: rest) = PErr.
+  Proof.
+    intro H. apply reject_not_authentic. intros (e & an & a & key & He & Hn & _). exact (H e an key He Hn).
+  Qed.
+
+  Lemma reject_unknown_keys keys m1 rest :
+    (forall e alg key, In e (m_entries m1) -> e_name e = sig_entry_name alg key -> ~ In key keys) ->
+    pri true keys (m1 :: rest) = PErr.
+  Proof.
+    intro H. apply reject_not_authentic. intros (e & an & a & key & He & Hn & _ & Hk & _). exact (H e an key He Hn Hk).
+  Qed.
+
+  Lemma reject_unverified keys m1 rest :
+    (forall e key a, In e (m_entries m1) -> In key keys -> verify key a (hash a (raw rest)) (e_body e) = false) ->
+    pri true keys (m1 :: rest) = PErr.
+  Proof.
+    intro H. apply reject_not_authentic. intros (e & an & a & key & He & _ & _ & Hk & V).
+    rewrite (H e key a He Hk) in V. discriminate.
+  Qed.
+
+  Lemma reject_no_keys a : pri true [] a = PErr.
+  Proof. reflexivity. Qed.
+
+  Lemma reject_empty_archive keys : pri true keys [] = PErr.
+  Proof. unfold parse_repository_index. destruct keys; [reflexivity|]. destruct (existsb _ _); reflexivity. Qed.
+
+  Lemma unchecked_is_plain_parse keys a : pri false keys a = ifa a.
+  Proof. reflexivity. Qed.
 End WithOracles.
+
+  (* every entry name the signature pass tolerates matches the generated regex *)
+  Lemma sig_pass_names keys : forall es sigs,
+    sig_pass keys es = Ok sigs -> forall e, In e es -> full_match signature_file_regex (e_name e) = true.
+  Proof.
+    induction es as [|e es IH]; simpl; intros sigs H e' He'; [destruct He'|].
+    destruct (sig_name_parts (e_name e)) as [[alg key]|] eqn:P; [|discriminate].
+    destruct He' as [->|He'].
+    - apply sig_name_parts_spec in P. tauto.
+    - destruct (negb (mem_str key keys)); [eapply IH; eauto|].
+      destruct (sig_kind_of alg); try discriminate; [eapply IH; eauto|].
+      destruct (sig_pass keys es) eqn:R; simpl in H; try discriminate. eapply IH; eauto.
+  Qed.
+
+
+(* ---- names: the regular expression only lets signature names through ------- *)
+Lemma L_lit_inv bs s : L (Lit bs) s -> s = bs.
+Proof. intro H; inversion H; reflexivity. Qed.
+
+Lemma N_of_ascii_inj a b : N_of_ascii a = N_of_ascii b -> a = b.
+Proof. intro H. rewrite <- (ascii_N_embedding a), <- (ascii_N_embedding b), H. reflexivity. Qed.
+
+Lemma bytes_of_string_cons a s : bytes_of_string (String a s) = N_of_ascii a :: bytes_of_string s.
+Proof. reflexivity. Qed.
+
+Lemma bytes_prefix_has_prefix p : forall n t,
+  bytes_of_string n = bytes_of_string p ++ t -> has_prefix p n = true.
+Proof.
+  unfold has_prefix. induction p as [|a p IH]; intros n t H; [reflexivity|].
+  rewrite bytes_of_string_cons in H. destruct n as [|b n]; [discriminate|].
+  rewrite bytes_of_string_cons in H. simpl in H. inversion H as [[Hb Ht]].
+  apply N_of_ascii_inj in Hb; subst b. simpl. rewrite Ascii.eqb_refl. eapply IH; eauto.
+Qed.
+
+Lemma sig_regex_prefix n :
+  full_match signature_file_regex n = true -> has_prefix sig_lit_prefix n = true.
+Proof.
+  unfold full_match. destruct (anchored signature_file_regex) as [r|] eqn:A; [|discriminate].
+  vm_compute in A. inversion A as [Hr]. clear A. intro M.
+  apply matches_L in M; [|subst r; vm_compute; reflexivity].
+  subst r. apply L_cat_inv in M. destruct M as (s1 & s2 & E & L1 & _).
+  apply L_lit_inv in L1. subst s1.
+  eapply bytes_prefix_has_prefix with (t := s2). rewrite E. reflexivity.
+Qed.
+
+(* a tolerated name is never one of the names the index reader takes packages
+   or the description from, and it is one the index reader files as a signature *)
+Lemma tolerated_names_disjoint n :
+  full_match signature_file_regex n = true ->
+  has_prefix sign_prefix n = true /\ n <> apk_index_filename /\ n <> description_filename.
+Proof.
+  intro F. apply sig_regex_prefix in F.
+  assert (sig_lit_prefix = sign_prefix) as E by reflexivity. rewrite E in F.
+  split; [exact F|]. split; eapply has_prefix_neq; eauto; vm_compute; reflexivity.
+Qed.
+
+(* ---- opt-outs ---------------------------------------------------------------- *)
+Lemma append_nil_r s : (s ++ "")%string = s.
+Proof. induction s; simpl; congruence. Qed.
+
+Lemma index_url_spec r arch : index_url r arch = (r ++ "/" ++ arch ++ "/APKINDEX.tar.gz")%string.
+Proof.
+  unfold index_url, index_url_format, index_filename. cbn [sprintf_s].
+  rewrite append_nil_r. reflexivity.
+Qed.
+
+Lemma should_check_iff ign listed index arch :
+  should_check ign listed index arch = true <-> CheckRequired ign listed index arch.
+Proof.
+  unfold should_check, CheckRequired. destruct ign.
+  - split; [discriminate | intros [H _]; discriminate].
+  - rewrite negb_true_iff. split.
+    + intro H. split; [reflexivity|]. intros r Hr E.
+      assert (existsb (fun r0 => String.eqb (index_url r0 arch) index) listed = true) as X.
+      { apply existsb_exists. exists r. split; [exact Hr|]. rewrite index_url_spec. apply String.eqb_eq; exact E. }
+      congruence.
+    + intros [_ H]. destruct (existsb _ listed) eqn:X; [|reflexivity].
+      apply existsb_exists in X. destruct X as (r & Hr & E). apply String.eqb_eq in E.
+      rewrite index_url_spec in E. exfalso; exact (H r Hr E).
+Qed.
+
+Lemma check_required_b_iff ign listed index arch :
+  check_required_b ign listed index arch = true <-> CheckRequired ign listed index arch.
+Proof.
+  unfold check_required_b, CheckRequired. rewrite andb_true_iff, negb_true_iff, forallb_forall.
+  split; intros [H1 H2]; (split; [exact H1|]); intros r Hr.
+  - specialize (H2 r Hr). rewrite negb_true_iff in H2. intro E. apply String.eqb_eq in E. congruence.
+  - rewrite negb_true_iff. destruct (String.eqb _ index) eqn:E; [|reflexivity].
+    apply String.eqb_eq in E. exfalso; exact (H2 r Hr E).
+Qed.
+
+(* ---- the modelled envelope of the tar walk ----------------------------------- *)
+(* no two meta-headers in a row, and a size record never raises the number of
+   512-byte blocks of the entry it applies to *)
+Fixpoint toks_modelled (carried : option meta) (ts : list tok) : bool :=
+  match ts with
+  | [] => true
+  | KZero :: _ => true
+  | KMeta mt :: ts' => match carried with None => toks_modelled (Some mt) ts' | Some _ => false end
+  | KEntry e :: ts' =>
+      (match carried with
+       | Some mt => match mt_resize mt with
+                    | Some k => (blocks k <=? blocks (blen (e_body e)))%N
+                    | None => true
+                    end
+       | None => true
+       end) && toks_modelled None ts'
+  end.
+
+Lemma read_toks_modelled parse_text : forall ts carried idx,
+  toks_modelled carried ts = true -> read_toks parse_text carried idx ts <> PUnmodelled.
+Proof.
+  induction ts as [|t ts IH]; intros carried idx H; simpl; [discriminate|].
+  destruct t as [e|mt|].
+  - simpl in H. apply andb_true_iff in H. destruct H as [H1 H2].
+    assert (forall e', match handle parse_text idx e' with
+                       | Some idx' => read_toks parse_text None idx' ts
+                       | None => PErr end <> PUnmodelled) as K.
+    { intro e'. destruct (handle parse_text idx e'); [apply IH; exact H2 | discriminate]. }
+    destruct carried as [mt|]; [|apply K].
+    unfold apply_meta. destruct (mt_resize mt) as [k|]; [|apply K].
+    destruct (blocks k =? blocks (blen (e_body e)))%N eqn:E1; [apply K|].
+    destruct (blocks k <? blocks (blen (e_body e)))%N eqn:E2; [discriminate|].
+    apply N.leb_le in H1. apply N.eqb_neq in E1. apply N.ltb_ge in E2. lia.
+  - simpl in H. destruct carried; [discriminate|]. apply IH; exact H.
+  - destruct ts as [|[e|mt|] ts']; discriminate.
+Qed.
